@@ -4,6 +4,7 @@ import (
 	"crypto/tls"
 	"fmt"
 	"net"
+	"os"
 	"sync"
 	"sync/atomic"
 	"time"
@@ -22,7 +23,7 @@ func init() {
 			"distinct_nontrivial = distinct tagged connections that issued at least two requests and were closed and reported via OnClose",
 		Assume: []string{"a connection is identified client-side by the tag it puts into its requests"},
 		Phases: func(tier string, seed int64) []Phase {
-			return []Phase{{Name: "cycles", Run: c09Run}}
+			return []Phase{{Name: "cycles", Run: c09Run}, {Name: "cycles-tls-listener", Run: c09Run, Arg: "tls"}}
 		},
 		MinObserved: []string{"requests_tagged", "reconnects_after_close", "onclose_ids_matched", "accept_failure_episodes", "starttls_upgraded_connections", "short_lived_connections"},
 	})
@@ -65,7 +66,14 @@ func c09Run(c *Ctx) {
 		replyFor(o, w, r)
 	}
 	pki := newPKI()
-	srv, err := startSrv(SrvCfg{}, func(m *gldap.Mux) {
+	// the TLS-listener phase: the same cycles over ldaps, where closing the transport can fail (a peer that vanished
+	// with a reset leaves nothing to send the close_notify to), without the long-lifetime and accept-failure parts
+	overTLS := os.Getenv("VERIF_ARG") == "tls"
+	var stc, ctc *tls.Config
+	if overTLS {
+		stc, ctc = pki.ServerOnly, pki.ClientPlain
+	}
+	srv, err := startSrv(SrvCfg{TLS: stc}, func(m *gldap.Mux) {
 		m.Bind(handler)
 		m.Search(handler)
 		m.Modify(handler)
@@ -82,6 +90,9 @@ func c09Run(c *Ctx) {
 	}
 	clients := c.N(32, 256)
 	totalConns := c.N(2500, 60000)
+	if overTLS {
+		clients, totalConns = c.N(16, 64), c.N(400, 6000)
+	}
 	var connCtr atomic.Int64
 	var cur, maxCur atomic.Int64
 	var wg sync.WaitGroup
@@ -104,14 +115,19 @@ func c09Run(c *Ctx) {
 					c.Count("untagged_connections", 1)
 					continue
 				case 1: // malformed frame
-					if cn, err := net.Dial("tcp", srv.Addr); err == nil {
+					if overTLS {
+						if kc, err := dialRaw(srv.Addr, ctc); err == nil {
+							kc.Send([]byte{0x30, 0x02, 0xff, 0xff})
+							kc.Close()
+						}
+					} else if cn, err := net.Dial("tcp", srv.Addr); err == nil {
 						cn.Write([]byte{0x30, 0x02, 0xff, 0xff})
 						cn.Close()
 					}
 					c.Count("untagged_connections", 1)
 					continue
 				}
-				kc, err := dialRaw(srv.Addr, nil)
+				kc, err := dialRaw(srv.Addr, ctc)
 				if err != nil {
 					c.Inconclusive("dial: " + err.Error())
 					return
@@ -154,9 +170,14 @@ func c09Run(c *Ctx) {
 						break
 					}
 				}
-				if r.Chance(20) {
+				switch x := r.Intn(100); {
+				case x < 20 || overTLS && x < 40:
 					kc.Reset()
-				} else {
+					c.Count("connections_ended_by_reset", 1)
+				case overTLS && x < 55:
+					kc.Drop()
+					c.Count("tls_connections_ended_without_close_notify", 1)
+				default:
 					kc.Close()
 				}
 				cur.Add(-1)
@@ -169,7 +190,11 @@ func c09Run(c *Ctx) {
 	}
 	wg.Wait()
 	// connections that are upgraded with StartTLS in the middle: the ID must not change across the upgrade
-	for i := 0; i < c.N(30, 400); i++ {
+	nStartTLS := c.N(30, 400)
+	if overTLS {
+		nStartTLS = 0
+	}
+	for i := 0; i < nStartTLS; i++ {
 		tag := fmt.Sprintf("tag=starttls-%d", i)
 		cn, err := net.Dial("tcp", srv.Addr)
 		if err != nil {
@@ -198,13 +223,25 @@ func c09Run(c *Ctx) {
 			tcl.Send(sber.Message(int64(3+k), sber.Search{Base: []byte(tag), Scope: 2, Filter: sber.PresentFilter("cn"), Attrs: [][]byte{}}.Node(), nil).Encode())
 			tcl.ReadMsg(patience)
 		}
-		tc.Close()
+		switch i % 3 {
+		case 0:
+			tc.Close()
+		case 1: // the peer vanishes: RST underneath the TLS session, no close_notify
+			cn.(*net.TCPConn).SetLinger(0)
+			cn.Close()
+			c.Count("connections_ended_by_reset", 1)
+		default:
+			cn.Close()
+			c.Count("tls_connections_ended_without_close_notify", 1)
+		}
 		closedTags <- tag
 		c.Count("starttls_upgraded_connections", 1)
 	}
 	// a long server lifetime: far more connections than any 16-bit counter holds, next to one long-lived tagged
 	// connection (closed with RST so that no TIME_WAIT sockets pile up)
-	if long, err := dialRaw(srv.Addr, nil); err == nil {
+	if long, err := dialRaw(srv.Addr, ctc); err == nil && overTLS {
+		long.Close()
+	} else if err == nil {
 		long.Send(sber.Message(1, sber.BindRequest(3, []byte("tag=long-lived"), []byte("p")), nil).Encode())
 		long.ReadMsg(patience)
 		connCtr.Add(1)
@@ -242,7 +279,11 @@ func c09Run(c *Ctx) {
 	// accept-failure episodes: connection IDs must stay unique and positive when Accept fails temporarily
 	// (descriptor exhaustion) between two connections
 	extra := 0
-	for ep := 0; ep < c.N(4, 20); ep++ {
+	nEpisodes := c.N(4, 20)
+	if overTLS {
+		nEpisodes = 0
+	}
+	for ep := 0; ep < nEpisodes; ep++ {
 		mkTagged := func(tag string) *Client {
 			kc, err := dialRaw(srv.Addr, nil)
 			if err != nil {
